@@ -29,7 +29,7 @@ AllRules == {"C02.NoPanic", "C02.Json", "C02.Total", "C02.TotalHM", "C02.Now", "
              "C14.NoPanic", "C14.JsonTags", "C14.Totals", "C14.Match",
              "C17.Now", "C17.TodayNow",
              "C18.NoPanic", "C18.Strip", "C18.Plain", "C18.Widths",
-             "C20.NoPanic", "C20.WellFormed", "C20.Record", "C20.Arithmetic",
+             "C20.NoPanic", "C20.WellFormed", "C20.Record", "C20.Arithmetic", "C20.Filtered",
              "X.Warn"}
 RuleNames == {r \in AllRules : \E p \in Prefixes : StartsWith(r, p)}
 
@@ -234,6 +234,13 @@ Holds(r, ev, PD) ==
                 LET run == o.runs[i] IN
                 StartsWith(run.id, "json") /\ ~StartsWith(run.id, "json:sort") /\ ~StartsWith(run.id, "json:now")
                 /\ Len(c.runs[i].q.tags) > 0 =>
+                    /\ run.code = 0 /\ run.json.wellformed
+                    /\ JShapesOf(run.json.records) = ShapesOf(Filter(R, QueryOf(c.runs[i].q)))
+      (* the JSON document of a filtered selection: every field of exactly the selected data *)
+      [] r = "C20.Filtered" -> live =>
+            \A i \in 1..Len(o.runs) :
+                LET run == o.runs[i] IN
+                StartsWith(run.id, "json:") /\ ~StartsWith(run.id, "json:sort") /\ ~StartsWith(run.id, "json:now") =>
                     /\ run.code = 0 /\ run.json.wellformed
                     /\ JShapesOf(run.json.records) = ShapesOf(Filter(R, QueryOf(c.runs[i].q)))
       [] r = "C13.Print" -> live =>
